@@ -573,7 +573,7 @@ impl Property for C08 {
         if rng.chance(30) {
             // several projects with the same target names: names must resolve inside the
             // declaring project, or a target outside the closure runs
-            let mut sc = gen::gen_io(rng, &gen::IoOpts { multi_project_pct: 100, max_targets: 7, cmd_pct: 10 });
+            let mut sc = gen::gen_io(rng, &gen::IoOpts { multi_project_pct: 100, max_targets: 7, cmd_pct: 10, cmd_output_pct: 0 });
             for _ in 0..rng.range(1, 2) {
                 let args = gen::gen_request_io(rng, &sc, 0);
                 if args.is_empty() {
@@ -696,13 +696,26 @@ impl Property for C07 {
     fn rule(&self) -> &'static str {
         "one case = generated project + request + seeded schedule + a failing subset injected through the fault plan (build exits non-zero, build killed by a signal, build or service that cannot be spawned: EAGAIN), any position in the graph. Oracle: non-zero exit naming a target that failed in this run, no transitive dependent of a failed target ever started, no stall. distinct_nontrivial = distinct order hashes among runs in which a failure was actually observed"
     }
-    fn generate(&self, rng: &mut Rng, _case: u64) -> Scenario {
+    fn generate(&self, rng: &mut Rng, case_no: u64) -> Scenario {
         if rng.chance(30) {
             return super::watch::gen_watch(rng, &super::watch::WatchOpts { fail_pct: 100, max_bursts: 3, ..Default::default() });
         }
-        let mut sc = gen::gen_graph(rng, &GraphOpts { max_n: 9, ..Default::default() });
-        let args = gen::gen_request(rng, &sc);
+        // every 40th case: a wide graph (queues full) with one more, failing, target beside it
+        let wide = case_no % 40 == 11;
+        let mut sc = gen::gen_graph(rng, &GraphOpts { max_n: 9, force_wide: wide, ..Default::default() });
+        let mut args = gen::gen_request(rng, &sc);
+        if wide {
+            sc.projects[0].targets.push(Target::new("flaky", Kind::Build));
+            let n = sc.projects[0].targets.len();
+            args = vec![sc.projects[0].targets[n - 2].name.clone(), "flaky".into()];
+            if rng.chance(50) {
+                args.reverse();
+            }
+        }
         let mut inv = standard_invocation(rng, &sc, args);
+        if wide {
+            inv.plan.faults.push(Fault { site: "proc.exit:p0.flaky".into(), occurrence: 1, kind: "exit=1".into() });
+        }
         let req = model::requested(&sc, 0, &inv.args);
         let clo: Vec<Tid> = model::closure(&sc, &req).into_iter().filter(|t| model::kind_of(&sc, t) != Some(Kind::Aggregate)).collect();
         if !clo.is_empty() {
@@ -838,7 +851,7 @@ impl Property for C17 {
     fn rule(&self) -> &'static str {
         "one case = generated project in which an antichain of 2..6 mutually independent build targets (none reachable from another) carries rendezvous-gated scripts: a member's exit event is enabled only once every member has started; unrelated never-ending builds and services run alongside. The run can complete iff all members overlap; a stall with an unstarted member whose dependencies are all ready is the violation. distinct_nontrivial = distinct order hashes among runs where at least two members were in progress together"
     }
-    fn generate(&self, rng: &mut Rng, _case: u64) -> Scenario {
+    fn generate(&self, rng: &mut Rng, case_no: u64) -> Scenario {
         let mut sc = gen::gen_graph(rng, &GraphOpts { max_n: 9, ..Default::default() });
         let all: Vec<Tid> = sc.all_targets();
         let builds: Vec<Tid> = all.iter().filter(|t| model::kind_of(&sc, t) != Some(Kind::Aggregate)).cloned().collect();
@@ -855,8 +868,10 @@ impl Property for C17 {
                 break;
             }
         }
-        // add fresh independent members when the graph offers fewer than two
-        while anti.len() < 2 {
+        // every 60th case: more members than half the queue capacity, all requested by name
+        let want = if case_no % 60 == 7 { rng.range(34, 60) } else { 2 };
+        // add fresh independent members when the graph offers fewer than wanted
+        while anti.len() < want {
             let name = format!("x{}", anti.len());
             sc.projects[0].targets.push(Target::new(&name, Kind::Build));
             anti.push((0, name));
@@ -972,6 +987,42 @@ impl Property for C20 {
         "one case = metamorphic pair on two copies of one generated tree containing aggregates (nested, empty, over builds, services or both): side 0 requests an aggregate, side 1 requests its dependencies instead (an empty aggregate: nothing else), each side under its own seeded schedule, the signal only at idle. Oracle: same multiset of started scripts and same skipped set, same exit class, same keep-alive. distinct_nontrivial = distinct pairs of order hashes among pairs whose aggregate has at least one dependency"
     }
     fn generate(&self, rng: &mut Rng, _case: u64) -> Scenario {
+        if rng.chance(15) {
+            // watch mode: everything requested through one aggregate must converge exactly as the
+            // convergence oracle demands of directly requested targets
+            let mut sc = super::watch::gen_watch(rng, &super::watch::WatchOpts { inside_build_pct: 55, ..Default::default() });
+            let wi = sc.steps.len() - 1;
+            let names: Vec<String> = match &sc.steps[wi] {
+                Step::Invoke(inv) => inv.args.iter().filter(|a| !a.starts_with('-')).cloned().collect(),
+                _ => vec![],
+            };
+            // put an aggregate between some target and two or more of its plain dependencies
+            let cand: Vec<usize> = (0..sc.projects[0].targets.len()).filter(|&i| sc.projects[0].targets[i].kind != Kind::Aggregate && sc.projects[0].targets[i].deps.iter().filter(|d| d.via_dep && !d.via_output && d.project == 0).count() >= 2).collect();
+            if sc.projects.len() == 1 && !cand.is_empty() {
+                let ti = *rng.pick(&cand);
+                let moved: Vec<DepRef> = sc.projects[0].targets[ti].deps.iter().filter(|d| d.via_dep && !d.via_output && d.project == 0).cloned().collect();
+                sc.projects[0].targets[ti].deps.retain(|d| !(d.via_dep && !d.via_output && d.project == 0));
+                sc.projects[0].targets[ti].deps.push(DepRef { project: 0, target: "mid".into(), via_dep: true, via_output: false, qualified: false });
+                let mut mid = Target::new("mid", Kind::Aggregate);
+                mid.deps = moved;
+                sc.projects[0].targets.push(mid);
+            }
+            let mut agg = Target::new("aggall", Kind::Aggregate);
+            for n in &names {
+                let bare = n.rsplit("::").next().unwrap_or(n).to_string();
+                if sc.target(0, &bare).is_some() && !agg.deps.iter().any(|d| d.target == bare) {
+                    agg.deps.push(DepRef { project: 0, target: bare, via_dep: true, via_output: false, qualified: false });
+                }
+            }
+            if !agg.deps.is_empty() && sc.projects.len() == 1 {
+                sc.projects[0].targets.push(agg);
+                if let Step::Invoke(inv) = &mut sc.steps[wi] {
+                    inv.args = vec!["--watch".into(), "aggall".into()];
+                }
+                sc.label = format!("watch-agg-{}", sc.label);
+                return sc;
+            }
+        }
         let mut sc = gen::gen_graph(rng, &GraphOpts { max_n: 8, ..Default::default() });
         // make sure there is an aggregate; bias the top node
         let n = sc.projects[0].targets.len();
@@ -1014,7 +1065,23 @@ impl Property for C20 {
                 dedup.push(a);
             }
         }
+        // a third of the pairs run on primed trees with --clean on both sides: the recorded
+        // state of the aggregate's dependencies must be forgotten on both
+        let primed_clean = rng.chance(33);
+        if primed_clean {
+            let builds: Vec<String> = sc.projects[0].targets.iter().filter(|t| t.kind == Kind::Build).map(|t| t.name.clone()).collect();
+            if !builds.is_empty() {
+                let mut inv = standard_invocation(rng, &sc, builds);
+                inv.plan.strategy = simrt::plan::Strategy::Fifo;
+                inv.side = 9;
+                sc.steps.push(Step::Invoke(inv));
+            }
+        }
         for (side, args) in [(0usize, args0), (1usize, dedup)] {
+            let mut args = args;
+            if primed_clean {
+                args.insert(0, "--clean".into());
+            }
             let mut inv = standard_invocation(rng, &sc, args);
             if inv.plan.events.is_empty() {
                 inv.plan.events.push(gen::signal_at_idle());
@@ -1025,9 +1092,23 @@ impl Property for C20 {
         sc
     }
     fn evaluate(&self, sc: &Scenario, root: &Path, stats: &mut Stats) -> Option<Violation> {
+        if sc.label.starts_with("watch-agg-") {
+            let s = super::watch::run_session(sc, root, stats, |c| c.r.events.iter().any(|e| e.kind == "fs-apply"))?;
+            if let Some(v) = super::watch::oracle_c06(sc, &s) {
+                return Some(Violation { oracle: format!("watch-through-aggregate:{}", v.oracle), witness: v.witness, message: v.message });
+            }
+            return super::watch::oracle_c01b(sc, &s.r).map(|v| Violation { oracle: format!("watch-through-aggregate:{}", v.oracle), witness: v.witness, message: v.message });
+        }
         let mut results: Vec<(Invocation, RunResult)> = vec![];
+        let prime: Option<Invocation> = sc.steps.iter().find_map(|s| match s {
+            Step::Invoke(i) if i.side == 9 => Some(i.clone()),
+            _ => None,
+        });
         for st in &sc.steps {
             if let Step::Invoke(inv) = st {
+                if inv.side == 9 {
+                    continue;
+                }
                 // each side on its own fresh copy of the tree (same path: hash order identical)
                 let mut case = match materialize(sc, root) {
                     Ok(c) => c,
@@ -1036,6 +1117,12 @@ impl Property for C20 {
                         return None;
                     }
                 };
+                if let Some(p) = &prime {
+                    let pr = run_invocation(sc, &mut case, p, "prime");
+                    if !pr.main_returned() || pr.code != 0 {
+                        return None;
+                    }
+                }
                 let r = run_invocation(sc, &mut case, inv, &format!("side{}", inv.side));
                 if let Some(h) = harness_error_of(&r) {
                     stats.harness_errors.push(h);
